@@ -214,7 +214,7 @@ func OtherKind(t *rapid.T, label string) *Node {
 	case 1:
 		return &Node{Kind: "bool", Bool: rapid.Bool().Draw(t, label+"-b")}
 	case 2:
-		return &Node{Kind: "number", Str: rapid.SampledFrom([]string{"0", "12", "-1", "1.5", "1e400", "300", "-0", "18446744073709551616"}).Draw(t, label+"-n")}
+		return &Node{Kind: "number", Str: rapid.SampledFrom([]string{"0", "12", "-1", "1.5", "1e400", "300", "-0", "18446744073709551616", "1e-7", "0.5e-3", "12E-4", "0e-2", "-1e-400", "1.0", "1e2", "9223372036854775808.0", "0.000"}).Draw(t, label+"-n")}
 	case 3:
 		return &Node{Kind: "string", Str: rapid.SampledFrom([]string{"", "x", "!!", "AQID", "2020-01-01T00:00:00Z", "nope", "null", "12"}).Draw(t, label+"-s")}
 	case 4:
